@@ -364,7 +364,9 @@ func (d *Driver) judgeC08() {
 				} else {
 					pendingDemote--
 					// promptness: outside stop calls the callback must run by the next quiescent point
-					if !stopStack(lastFall.Stack) && it.cb.Step != lastFall.Step {
+					// (same virtual instant: a goroutine preempted between clearing the claim and calling
+					// the callback is not at a quiescent point yet; positive stalls are allowed for)
+					if !stopStack(lastFall.Stack) && it.cb.T > lastFall.T+d.stallIn(k[0], lastFall.T, it.cb.T) {
 						d.h.violate("C08", "late-ondemote/fall-by:"+lastFall.Stack, fmt.Sprintf("i%d.%d lost leadership at step %d (%v) but OnDemote ran at step %d (%v)", k[0], k[1], lastFall.Step, lastFall.T, it.cb.Step, it.cb.T), it.cb.T, it.cb.Step)
 					}
 				}
@@ -471,7 +473,7 @@ func (d *Driver) judgeC19() {
 		}
 		if t.Fall != nil && t.SEnd < d.endStep && !exitedBefore(t.SEnd) {
 			// callback still running at the end of the term: the context must be done by the next quiescent point
-			if x.done == nil || x.done.Step > t.SEnd {
+			if x.done == nil || x.done.T > t.End {
 				when := "never"
 				if x.done != nil {
 					when = fmt.Sprintf("only at %v", x.done.T)
@@ -624,7 +626,8 @@ func (d *Driver) judgeC09() {
 			}
 			continue
 		}
-		dur := a.TRet - a.TInv
+		// virtual stalls injected at yield sites inside the call are not the call's doing
+		dur := a.TRet - a.TInv - d.stallIn(a.Inst, a.TInv, a.TRet)
 		if a.Kind == AStop {
 			bound := 5*time.Second + in.cfg.DemoteDur + time.Millisecond
 			if dur > bound {
